@@ -1,6 +1,7 @@
 package core
 
 import (
+	"go/constant"
 	"go/token"
 	"sort"
 	"strings"
@@ -157,7 +158,65 @@ func FDAnalyse(fn *ssa.Function, cells []FDCell, universe map[string][]string, p
 		o[cell] = n
 		return o, len(n) > 0
 	}
+	// a boolean temporary (`streaming := state == A || state == B`, tested later) is a phi fed by
+	// the edges of the short-circuit evaluation: it holds with polarity pol iff, for one of its
+	// edges, the edge was taken and the edge's value has that polarity
+	storesIn := func(b *ssa.BasicBlock) bool {
+		for _, instr := range b.Instrs {
+			for _, c := range cells {
+				if _, ok := c.IsStore(instr); ok {
+					return true
+				}
+			}
+		}
+		return false
+	}
+	var phiDepth int
+	refinePhi := func(st FDState, ph *ssa.Phi, pol bool) (FDState, bool) {
+		if phiDepth > 3 || storesIn(ph.Block()) {
+			return st, true
+		}
+		phiDepth++
+		defer func() { phiDepth-- }()
+		var acc FDState
+		any := false
+		for i, e := range ph.Edges {
+			pb := ph.Block().Preds[i]
+			cur, feasible := st, true
+			if storesIn(pb) {
+				return st, true
+			}
+			if iff, ok := pb.Instrs[len(pb.Instrs)-1].(*ssa.If); ok && pb.Succs[0] != pb.Succs[1] {
+				cur, feasible = refine(cur, iff.Cond, pb.Succs[0] == ph.Block())
+			}
+			if !feasible {
+				continue
+			}
+			if k, isK := e.(*ssa.Const); isK && k.Value != nil && k.Value.Kind() == constant.Bool {
+				if constant.BoolVal(k.Value) != pol {
+					continue
+				}
+			} else {
+				cur, feasible = refine(cur, e, pol)
+				if !feasible {
+					continue
+				}
+			}
+			if !any {
+				acc, any = cur.clone(), true
+			} else {
+				acc = joinFD(acc, cur)
+			}
+		}
+		if !any {
+			return st, false
+		}
+		return acc, true
+	}
 	refine = func(st FDState, cond ssa.Value, pol bool) (FDState, bool) {
+		if ph, isPhi := cond.(*ssa.Phi); isPhi {
+			return refinePhi(st, ph, pol)
+		}
 		bo, ok := cond.(*ssa.BinOp)
 		if !ok {
 			if u, ok := cond.(*ssa.UnOp); ok && u.Op == token.NOT {
